@@ -1240,3 +1240,105 @@ def read_keeps_every_element(ctx):
                   'read of %s post-processes what it has read with %s (line %d): distinct serializations decode to the same value'
                   % (name, bad[0].name if bad else '', bad[0].ln if bad else 0), 'no removal / sort between reading and building', r.where())
     ctx.floor(n, 20 if _ONLY[0] is None else 1, 'read implementations')
+
+
+@rule('C13', 'absent-only-when-empty', configs=('default', 'p256'))
+def absent_only_when_empty(ctx):
+    """An optional byte string is decoded as absent only when nothing was written for it: a reader compares the length of
+    what it has just read with zero (is_empty / len == 0) and with nothing else. A reader that treats short-but-present values
+    as absent returns an object that differs from the one serialized — and for an encrypted header drops the authenticated
+    (possibly empty) metadata."""
+    F = ctx.F
+    n = 0
+    for (i, w, r, ln) in serializable_impls(F):
+        if r is None:
+            continue
+        name = norm_ty(i['self'])
+        for fb in lib.family_ext(F, r.key):
+            for cmp_ in lib.comparisons(fb):
+                for (x, y) in ((cmp_['a'], cmp_['b']), (cmp_['b'], cmp_['a'])):
+                    cx = lib.classify_scalar(fb, x)
+                    if cx[0] != 'len':
+                        continue
+                    sl = backward_slice(fb, [x], follow_mutarg=False)
+                    if not sl.has_call(r'bytes_de::read_vec$', r'Deserializer::<?.*read_vec$', r'Deserializer::<?.*read_array') \
+                            or sl.has_call(r'Deserializer::<?.*value$'):
+                        continue
+                    cy = lib.classify_scalar(fb, y)
+                    n += 1
+                    ctx.check(cy == ('const', 0), name, 'read: value absent <=> empty',
+                              'read of %s compares the length of a value it has read with %s (line %d): values that are present but '
+                              'short are decoded as absent' % (name, cy[1] if cy[0] == 'const' else 'a computed bound', cmp_['ln']),
+                              'len == 0 / is_empty()', fb.where(cmp_['ln']))
+    ctx.note('%d length tests on values just read' % n)
+
+
+@rule('C13', 'length-sums-every-element', configs=('default', 'p256'))
+def length_sums_every_element(ctx):
+    """`length` announces what `write` emits for EVERY element of a collection: it sums over the elements; it never multiplies the
+    number of elements by the size of one representative unless the element type has a fixed size (chains can mix classic and
+    hybridized secrets after a flavour change)."""
+    F = ctx.F
+    n = 0
+    for (i, w, r, ln) in serializable_impls(F):
+        if ln is None:
+            continue
+        name = norm_ty(i['self'])
+        n += 1
+        bad = []
+        for fb in lib.family_ext(F, ln.key):
+            for b in sorted(fb.live_blocks()):
+                for st in fb.stmts(b):
+                    rv = st['rv']
+                    if rv['k'] == 'bin' and rv['op'] in ('Mul', 'MulWithOverflow'):
+                        sides = [rv['a'], rv['b']]
+                        kinds = [lib.classify_scalar(fb, o)[0] for o in sides]
+                        if 'len' in kinds:
+                            other = sides[1 - kinds.index('len')]
+                            osl = backward_slice(fb, [other], follow_mutarg=False) if is_place(other) else None
+                            if osl is not None and osl.has_call(r'Serializable::length$', r'::length$'):
+                                bad.append(st['ln'])
+        ctx.check(not bad, name, 'length sums over the elements',
+                  'length of %s multiplies a number of elements by the length of one of them (line %s): wrong as soon as the elements '
+                  'differ in size (a chain mixing classic and hybridized secrets)' % (name, bad[:1]), 'sum over elements', ln.where())
+    ctx.floor(n, 20 if _ONLY[0] is None else 1, 'length implementations')
+
+
+CONTAINER_ADD = (r'^std::collections::HashSet::<[^>]*>::insert$', r'^std::collections::HashMap::<[^>]*>::insert$',
+                 r'^std::collections::LinkedList::<[^>]*>::push_(back|front)$', r'^std::vec::Vec::<[^>]*>::push$',
+                 r'^std::collections::VecDeque::<[^>]*>::push_(back|front)$', r'data_struct::.*::(insert|insert_new_chain|push)$')
+
+
+@rule('C13', 'read-loop-keeps-every-element', configs=('default', 'p256'))
+def read_loop_keeps_every_element(ctx):
+    """A reader that loops `for _ in 0..n { let x = read()?; container.insert(x) }` stores every element it reads: inside the
+    loop, no path leads from the read back to the loop head without passing the insertion (errors leave the function). An
+    insertion made conditional on the element's content silently drops well-formed data (identifiers issued under an earlier
+    tracing level, say) when a key is reloaded."""
+    from .c01 import own_loop
+    F = ctx.F
+    n = 0
+    for (i, w, r, ln) in serializable_impls(F):
+        if r is None:
+            continue
+        name = norm_ty(i['self'])
+        for fb in lib.family_ext(F, r.key):
+            depth, dom = loop_depths(fb)
+            for c in fb.calls(r'^std::iter::Iterator::next$'):
+                if 'std::ops::Range' not in (c.self_ty or '') or depth.get(c.b, 0) == 0:
+                    continue
+                L = own_loop(fb, c.b, dom)
+                adds = [x for x in fb.calls(*CONTAINER_ADD) if x.b in L]
+                if not adds:
+                    continue
+                t_ = fb.term(c.target) if c.target is not None else None
+                some_t = [bb for v, bb in t_['cases'] if v == 1] if t_ and t_['k'] == 'switch' else []
+                if not some_t:
+                    continue
+                n += 1
+                rr = fb.reach(some_t[0], avoid_blocks=[x.b for x in adds])
+                ctx.check(c.b not in rr, name, 'read: every element read is stored',
+                          'in read of %s the loop at line %d can go on to its next iteration without storing the element it has just '
+                          'read (the insertion at line %d is conditional): well-formed elements are dropped on reload'
+                          % (name, c.ln, adds[0].ln), 'the insertion is on every path through the loop body', fb.where(c.ln))
+    ctx.note('%d reading loops with an insertion' % n)
